@@ -4,6 +4,8 @@ from __future__ import annotations
 from dataclasses import replace
 from datetime import timedelta
 
+from hypothesis import strategies as st
+
 from .. import gen, observe, rules
 from ..engine import Campaign, Result, Violation
 from ..spec import render
@@ -138,6 +140,35 @@ def eval_project(spec):
     return r
 
 
+@st.composite
+def alap_front(draw):
+    """Backward projects whose work fills the horizon right down to the very first slot
+    (project start inside working time, or a round-the-clock resource)."""
+    from datetime import datetime
+
+    from ..spec import Hours, ProjectSpec, Res, Task
+
+    res_min = draw(st.sampled_from([15, 30, 60]))
+    around_clock = draw(st.booleans())
+    start = datetime(2025, 1, 6, 0, 0) if around_clock else datetime(2025, 1, 6, 9, 0)
+    r = Res("r0")
+    if around_clock:
+        r.hours = Hours({d: [(0, 0)] for d in range(7)})  # 00:00 - 00:00 = 24 h
+    spec = ProjectSpec(start=start, dur=(draw(st.integers(1, 3)), "w"), res_min=res_min, sched="alap", resources=[r])
+    k = draw(st.integers(2, 8))  # deadline k slots after the project start
+    deadline = start + timedelta(minutes=k * res_min)
+    parts = []
+    left = k + draw(st.sampled_from([0, 0, 0, -1, 1]))
+    while left > 0:
+        n = draw(st.integers(1, min(3, left)))
+        parts.append(n)
+        left -= n
+    for i, n in enumerate(parts):
+        spec.tasks.append(Task(f"t{i}", effort=(str(n * res_min), "min"), alloc=["r0"], end=deadline,
+                               priority=draw(st.sampled_from([None, 100, 500, 900]))))
+    return spec
+
+
 def campaigns(tier):
     q = tier == "quick"
     return [
@@ -145,4 +176,6 @@ def campaigns(tier):
                  describe="D1+D2: sub-slot efforts, chains, mid-slot predecessors, milestones"),
         Campaign("whole", "hyp", evaluate=eval_project, strategy=lambda: gen.project_specs(PF_WHOLE), n=500 if q else 10000,
                  describe="D0+D2: whole-slot efforts, nesting, container dependencies, task-level ALAP"),
+        Campaign("alap_front", "hyp", evaluate=eval_project, strategy=alap_front, n=300 if q else 5000,
+                 describe="backward work packed against the very first slot of the project (slot index 0)"),
     ]
